@@ -1,14 +1,14 @@
 # C20 — snapshot labels written at pull time reproduce the layer's source at mount time
 PROPS["C20"] = dict(
     props_file="Properties/C20.v",
-    harnesses=[dict(cmd="labels", mod="root", model="Model.Labels", quick=176, thorough=6000, shard=22,
+    harnesses=[dict(cmd="labels", mod="root", model="Model.Labels", quick=144, thorough=6000, shard=18,
                     preamble="Open Scope string_scope.",
                     require=["flavour.default", "flavour.extra", "probe.plain", "probe.mutated", "input.layers-over-limit",
                              "input.urls-over-limit", "input.urls-at-limit", "input.layers-at-limit", "input.several-layers-with-urls", "input.bad-digest", "input.bad-ref",
                              "input.not-manifest", "input.nonlayer-in-layers"]),
                # command level: the real `ctr-remote rpull` wiring (commands.pull) through containerd's client.Pull, unpacker and
                # metadata snapshotter layer against an in-memory registry; observation = labels that reach the snapshotter
-               dict(cmd="rpull", mod="cmdmod", model="Model.Labels", quick=40, thorough=1500, shard=10,
+               dict(cmd="rpull", mod="cmdmod", model="Model.Labels", quick=32, thorough=1500, shard=8,
                     preamble="Open Scope string_scope.",
                     require=["flavour.default", "flavour.extra", "probe.plain", "probe.mutated", "input.urls-at-limit",
                              "input.several-layers-with-urls"])],
